@@ -398,6 +398,11 @@ pub fn run(ctx: &Ctx) -> i32 {
             ev.fps.insert(crate::rng::fnv_u64(0xDEE9, i as u64));
             let before = ev.evaluations;
             all_queries(&bytes, &kv, &bounds, false, &mut r, ev, &mut hooks);
+            if i % 4 == 0 {
+                let old = crate::refenc::encode(&kv, 1 + (i as u64 / 4) % 2, 0, 1, &mut r);
+                all_queries(&old, &kv, &bounds, false, &mut r, ev, &mut hooks);
+                ev.count("fsts:deep-random-in-files-of-format-version-1-or-2");
+            }
             ev.distinct_extra += ev.evaluations - before;
             ev.count("fsts:deep-random");
         }
@@ -456,6 +461,13 @@ pub fn run(ctx: &Ctx) -> i32 {
                     ev.fps.insert(crate::rng::fnv_u64(0x31de, idx as u64));
                     let before = ev.evaluations;
                     all_queries(&bytes, &kv, &bounds, false, &mut r, ev, &mut hooks);
+                    // the same content as files of the older format versions (1: no index table in wide nodes, 2: no
+                    // checksum), written by the independent reference encoder: maps and sets built by older releases
+                    for ver in [1u64, 2].iter() {
+                        let old = crate::refenc::encode(&kv, *ver, 0, 1, &mut r);
+                        all_queries(&old, &kv, &bounds, false, &mut r, ev, &mut hooks);
+                        ev.count("fsts:wide-nodes-in-files-of-format-version-1-or-2");
+                    }
                     ev.distinct_extra += ev.evaluations - before;
                     ev.count("fsts:wide-nodes");
                 }
@@ -494,7 +506,7 @@ pub fn run(ctx: &Ctx) -> i32 {
         ev,
         Spec {
             level: "exploration",
-            rule: "one evaluation = one range query (lower in {none,ge,gt} x upper in {none,le,lt} x bound strings) whose full output (keys, values, order, termination) is compared with the model filter, through raw search_with_state (hook H3 checks stack/key-buffer lock step after construction and after every next(); a breach is attached as diagnosis to an output violation and otherwise only recorded) and one of Fst::range / Map::range / Set::range; FSTs: subsets of {a,b}^<=3 (quick: all subsets with <=4 keys + every 10th other; thorough: all 32768) with all pairs of bounds from {a,b}^<=3 + k.00, k.ff, last byte +-1, absent 4-byte strings; deep random maps over 3 symbols (incl. 00/7f/ff) with bounds = keys, prefixes, +-1 mutations, extensions; nodes of fan-out {2,31,32,33,64,200,255,256} at depth 0 and 1 with bounds that diverge at the wide node (child bytes +-1, 00, fe, ff, and extensions); two corpora; repeated-bound settings and random sequences of 2..6 setter calls in any order (ge/gt/le/lt interleaved, per side the last one wins) through Fst::range, Fst::search, Map::range, Set::range and search_with_state; non-trivial = every query; distinct = (FST, query) pairs, distinct by construction",
+            rule: "one evaluation = one range query (lower in {none,ge,gt} x upper in {none,le,lt} x bound strings) whose full output (keys, values, order, termination) is compared with the model filter, through raw search_with_state (hook H3 checks stack/key-buffer lock step after construction and after every next(); a breach is attached as diagnosis to an output violation and otherwise only recorded) and one of Fst::range / Map::range / Set::range; FSTs: subsets of {a,b}^<=3 (quick: all subsets with <=4 keys + every 10th other; thorough: all 32768) with all pairs of bounds from {a,b}^<=3 + k.00, k.ff, last byte +-1, absent 4-byte strings; deep random maps over 3 symbols (incl. 00/7f/ff) with bounds = keys, prefixes, +-1 mutations, extensions; nodes of fan-out {2,31,32,33,64,200,255,256} at depth 0 and 1 with bounds that diverge at the wide node (child bytes +-1, 00, fe, ff, and extensions), each also as a version-1 and a version-2 file written by the independent reference encoder (as is every fourth deep random map); two corpora; repeated-bound settings and random sequences of 2..6 setter calls in any order (ge/gt/le/lt interleaved, per side the last one wins) through Fst::range, Fst::search, Map::range, Set::range and search_with_state; non-trivial = every query; distinct = (FST, query) pairs, distinct by construction",
             assumptions: vec!["bound classes (lo:*, hi:*) are decided from the inputs alone".into(), "hook H3 (verif_frames) is a read-only view; hook:* counts are recorded only".into()],
             floors,
             exhaustive: Some(!quick),
